@@ -42,3 +42,22 @@ contract("JobSet.finished_job", source=M + "JobSet.finished_job", params={"self"
 contract("NullJobSet.started_job", source=M + "NullJobSet.started_job", params={"self": "NullJobSet", "name": "Str"}, modifies=[])
 contract("NullJobSet.finished_job", source=M + "NullJobSet.finished_job", params={"self": "NullJobSet"}, modifies=[])
 contract("NullJobSet.check_status", source=M + "NullJobSet.check_status", params={"self": "NullJobSet"}, modifies=[])
+
+# ---- job set bookkeeping -------------------------------------------------------------------------------------------------------------------
+contract("JobSet.__init__", source=M + "JobSet.__init__", inline=True, params={"self": "JobSet", "handle": "TaskHandle", "name": "Str", "count": "Opt[Int]"})
+contract("TaskHandle.create_jobset", source=M + "TaskHandle.create_jobset", params={"self": "TaskHandle", "name": "Str", "count": "Opt[Int]"},
+         defaults={"name": "'JobSet'", "count": "None"}, returns="JobSet",
+         modifies=["self.job_sets", "TaskHandle.stopped[*]", "notified", "JobSet.handle[*]", "JobSet.name[*]", "JobSet.count[*]", "JobSet.done[*]", "JobSet.job_name[*]"], raises={},
+         ensures=["self.job_sets == old(self.job_sets) + [result]", "result.handle == self and result.name == name and result.count == count",
+                  "result.done == 0 and is_none(result.job_name)", "notified == old(notified) + len(self.observers)"],
+         note="a new job set starts at zero finished jobs, becomes the current one, and the observers are told")
+contract("TaskHandle.current_jobset", source=M + "TaskHandle.current_jobset", params={"self": "TaskHandle"}, returns="Opt[JobSet]", modifies=[], raises={},
+         ensures=["implies(len(self.job_sets) == 0, is_none(result))", "implies(len(self.job_sets) > 0, result == Some(self.job_sets[len(self.job_sets) - 1]))"],
+         note="the most recently created job set")
+contract("TaskHandle.add_observer", source=M + "TaskHandle.add_observer", params={"self": "TaskHandle", "observer": "Observer"}, modifies=["self.observers"], raises={},
+         ensures=["self.observers == old(self.observers) + [observer]"])
+contract("JobSet.get_percent_done", source=M + "JobSet.get_percent_done", params={"self": "JobSet"}, returns="Opt[Int]", modifies=[], raises={},
+         ensures=["implies(is_none(self.count) or val(self.count) <= 0, is_none(result))",
+                  "implies(not is_none(self.count) and val(self.count) > 0 and self.done >= 0, not is_none(result) and 0 <= val(result) and val(result) <= 100)",
+                  "implies(not is_none(self.count) and val(self.count) > 0 and self.done >= val(self.count), result == Some(100))"],
+         note="a percentage between 0 and 100 when the number of jobs is known, nothing otherwise")
